@@ -113,3 +113,33 @@ package storagesc
 //@   at-call save assert[total-within-limit-when-saved] assigner.CurrentRedeemed <= assigner.TotalLimit
 //@   at-call save assert[saved-under-the-markers-assigner] assigner.ClientId == marker.Assigner
 //@   at-call readPoolLockInternal assert[read-pool-gets-its-part] txn.Value == readPoolTokens && $arg3 == marker.Recipient
+
+// ---------------------------------------------------------------- governance: update_settings (C48)
+// The storage configuration is written to state only in a state that passed Config.validate() after
+// the last change was applied; changes are taken only from the contract owner recorded in the stored
+// configuration. ($cfgValid: chaincore/chain/state contracts.)
+//@ func (*Config).update
+//@   trusted
+//@   modifies conf.$all, $cfgValid
+//@   ensures !$cfgValid[obj(conf)]
+//@   ensures forall o int :: o != obj(conf) ==> $cfgValid[o] == old($cfgValid[o])
+//@ func (*Config).validate
+//@   trusted
+//@   modifies $cfgValid
+//@   ensures $cfgValid[obj(conf)] == (err == nil)
+//@   ensures forall o int :: o != obj(conf) ==> $cfgValid[o] == old($cfgValid[o])
+//@ func getSettingChanges
+//@   trusted
+//@   ensures result1 == nil ==> result0 != nil && result0.Fields != nil
+//@   modifies nothing
+//@ func (*StorageSmartContract).updateSettings
+//@   prop C48
+//@   inline-all
+//@   at-call-inlined
+//@   requires ssc != nil && t != nil && balances != nil
+//@   at-call update assert[owner-only] conf.OwnerId == t.ClientID
+//@   at-call InsertTrieNode assert[config-validated-when-saved] typeis($arg2, "*0chain.net/smartcontract/storagesc.Config") ==> $cfgValid[obj($arg2)]
+//@ func (*StorageSmartContract).commitSettingChanges
+//@   prop C48
+//@   requires ssc != nil && balances != nil
+//@   at-call InsertTrieNode assert[config-validated-when-saved] obj($arg2) == obj(conf) && $cfgValid[obj(conf)]
